@@ -50,3 +50,267 @@ def fixture_texts():
     for p in sorted(glob.glob(os.path.join(repo, 'tests', 'roundtrip', '*.txt'))):
         out.append(open(p, encoding='utf-8').read())
     return out
+
+# ---------------------------------------------------------------------------------------
+# structured documents over bluebell's vocabulary (mostly valid), mutations, token soup
+# ---------------------------------------------------------------------------------------
+HIER = ['ALINEA', 'ARTICLE', 'BOOK', 'CHAPTER', 'CLAUSE', 'DIVISION', 'INDENT', 'LEVEL', 'LIST', 'PARAGRAPH', 'PART',
+        'POINT', 'PROVISO', 'RULE', 'SECTION', 'SUBCHAPTER', 'SUBCLAUSE', 'SUBDIVISION', 'SUBLIST', 'SUBPARAGRAPH',
+        'SUBPART', 'SUBRULE', 'SUBSECTION', 'SUBTITLE', 'TITLE', 'TOME', 'TRANSITIONAL',
+        'ART', 'CHAP', 'PARA', 'SEC', 'SUBCHAP', 'SUBPARA', 'SUBSEC']
+SPEECH_CONTAINERS = ['ADDRESS', 'ADJOURNMENT', 'ADMINISTRATIONOFOATH', 'COMMUNICATION', 'DEBATESECTION',
+                     'DECLARATIONOFVOTE', 'MINISTERIALSTATEMENTS', 'NATIONALINTEREST', 'NOTICESOFMOTION',
+                     'ORALSTATEMENTS', 'PAPERS', 'PERSONALSTATEMENTS', 'PETITIONS', 'POINTOFORDER', 'PRAYERS',
+                     'PROCEDURALMOTIONS', 'QUESTIONS', 'RESOLUTIONS', 'ROLLCALL', 'WRITTENSTATEMENTS']
+SPEECH_GROUPS = ['SPEECHGROUP', 'SPEECH', 'QUESTION', 'ANSWER']
+SPEECH_BLOCKS = ['SCENE', 'NARRATIVE', 'SUMMARY']
+ATTACH = ['ATTACHMENT', 'APPENDIX', 'SCHEDULE', 'ANNEXURE']
+JUDGMENT_PARTS = ['INTRODUCTION', 'BACKGROUND', 'ARGUMENTS', 'REMEDIES', 'MOTIVATION', 'DECISION']
+CONTAINERS = ['PREFACE', 'PREAMBLE', 'BODY', 'CONCLUSIONS']
+BLOCKS = ['ITEMS', 'BLOCKLIST', 'ITEM', 'BULLETS', 'TABLE', 'TR', 'TH', 'TC', 'BLOCKS', 'QUOTE', 'P', 'LONGTITLE',
+          'CROSSHEADING', 'SUBHEADING', 'FOOTNOTE', 'FROM']
+INLINE_OPEN = ['**', '//', '__', '{{', '{{^', '{{_', '{{>', '{{*', '{{IMG', '{{FOOTNOTE', '{{abbr', '{{def', '{{em',
+               '{{inline', '{{term', '{{-', '{{+', '}}', '\\', '*', '{', '}', '|', '.', ' - ', '-']
+ALL_KEYWORDS = HIER + SPEECH_CONTAINERS + SPEECH_GROUPS + SPEECH_BLOCKS + ATTACH + JUDGMENT_PARTS + CONTAINERS + BLOCKS
+ROOTS6 = ['act', 'bill', 'doc', 'statement', 'debateReport', 'judgment']
+ROOTS7 = ROOTS6 + ['debate']
+
+PLAIN = ['foo', 'bar', 'baz', 'the', 'quick', 'brown', 'fox', 'lorem', 'ipsum', 'x', 'y', '1', '2a', '(a)', '(i)',
+         '1.2.', 'A.', 'été', 'naïve', 'אבג', 'مرحبا', '日本', '\U0001F600', 'a-b', 'semi;colon', 'q?']
+
+class Words:
+    """Supplies payload words; with unique=True every word is a fresh distinct token (for C03)."""
+    def __init__(self, rng, unique=False):
+        self.rng, self.unique, self.k = rng, unique, 0
+    def word(self):
+        if self.unique:
+            self.k += 1
+            base = self.rng.choice(['w', 'tok', 'ש', 'م', 'é', '\U0001F600z', 'q'])
+            return '%s%dz' % (base, self.k)
+        return self.rng.choice(PLAIN)
+    def words(self, lo=1, hi=4):
+        return ' '.join(self.word() for _ in range(self.rng.randint(lo, hi)))
+
+def gen_attrs(rng, W, p=0.15):
+    if rng.random() > p:
+        return ''
+    s = ''
+    for _ in range(rng.randint(0, 2)):
+        s += '.' + rng.choice(['cls', 'a', 'b-c', 'x1'])
+    if rng.random() < 0.6:
+        pairs = []
+        for _ in range(rng.randint(1, 2)):
+            pairs.append(rng.choice(['class', 'refersTo', 'status', 'title', 'period', 'alternativeTo']) +
+                         rng.choice([' v', ' #ref', ' a b', '']))
+        s += '{' + rng.choice(['|', ' | ', '|']).join(pairs) + '}'
+    return s
+
+def gen_inline(rng, W, depth=0):
+    """A run of inline text."""
+    parts = []
+    for _ in range(rng.randint(1, 4)):
+        r = rng.random()
+        if r < 0.6 or depth > 2:
+            parts.append(W.words(1, 3))
+        elif r < 0.66:
+            parts.append('**' + gen_inline(rng, W, depth + 1) + '**')
+        elif r < 0.70:
+            parts.append('//' + gen_inline(rng, W, depth + 1) + '//')
+        elif r < 0.73:
+            parts.append('__' + gen_inline(rng, W, depth + 1) + '__')
+        elif r < 0.77:
+            parts.append('{{' + rng.choice('^_') + gen_inline(rng, W, depth + 1) + '}}')
+        elif r < 0.81:
+            parts.append('{{>' + rng.choice(['http://x.y/z', '#sec_1', '']) + ' ' + gen_inline(rng, W, depth + 1) + '}}')
+        elif r < 0.84:
+            parts.append('{{*' + gen_inline(rng, W, depth + 1) + '}}')
+        elif r < 0.87:
+            parts.append('{{IMG ' + rng.choice(['a.png', 'http://x/y.jpg']) + rng.choice(['', ' ' + W.words(1, 2)]) + '}}')
+        elif r < 0.91:
+            parts.append('{{FOOTNOTE ' + rng.choice(['1', '2', '*', 'a']) + '}}')
+        elif r < 0.96:
+            tag = rng.choice(['abbr', 'def', 'em', 'inline', 'term', '-', '+'])
+            parts.append('{{' + tag + gen_attrs(rng, W, 0.4) + ' ' + gen_inline(rng, W, depth + 1) + '}}')
+        else:
+            parts.append('\\' + rng.choice(['*', '/', '_', '{', '\\', 'P', 'x']) + W.word())
+    return ' '.join(parts)
+
+def gen_heading(rng, W):
+    r = rng.random()
+    if r < 0.2: return ''
+    if r < 0.45: return ' ' + rng.choice(['1', '2', '(a)', '1.2', 'IV', 'A-1', '2_2', 'nn', '3 bis', '1.'])
+    if r < 0.8: return ' ' + rng.choice(['1', '2', '(b)', '3A']) + ' - ' + gen_inline(rng, W)
+    return ' - ' + gen_inline(rng, W)
+
+def gen_blocks(rng, W, ind, depth, out, allow_hier=True, n=None):
+    n = n if n is not None else rng.randint(1, 4)
+    for _ in range(n):
+        gen_block(rng, W, ind, depth, out, allow_hier)
+
+def gen_block(rng, W, ind, depth, out, allow_hier=True):
+    sp = '  ' * ind
+    r = rng.random()
+    deep = depth > 4
+    if r < 0.35 or deep:
+        out.append(sp + gen_inline(rng, W))
+    elif r < 0.50 and allow_hier:
+        out.append(sp + rng.choice(HIER) + gen_attrs(rng, W, 0.1) + gen_heading(rng, W))
+        if rng.random() < 0.85:
+            if rng.random() < 0.2:
+                out.append(sp + '  SUBHEADING ' + gen_inline(rng, W))
+            gen_blocks(rng, W, ind + 1, depth + 1, out, True)
+    elif r < 0.56 and allow_hier:
+        out.append(sp + 'CROSSHEADING' + gen_attrs(rng, W, 0.1) + rng.choice(['', ' ' + gen_inline(rng, W)]))
+    elif r < 0.64:
+        out.append(sp + rng.choice(['ITEMS', 'BLOCKLIST']) + gen_attrs(rng, W, 0.1))
+        if rng.random() < 0.3:
+            out.append(sp + '  ' + gen_inline(rng, W))
+        for _ in range(rng.randint(1, 3)):
+            out.append(sp + '  ITEM' + gen_heading(rng, W))
+            if rng.random() < 0.85:
+                gen_blocks(rng, W, ind + 2, depth + 2, out, False, rng.randint(1, 2))
+        if rng.random() < 0.2:
+            out.append(sp + '  ' + gen_inline(rng, W))
+    elif r < 0.70:
+        out.append(sp + 'BULLETS' + gen_attrs(rng, W, 0.1))
+        for _ in range(rng.randint(1, 3)):
+            out.append(sp + '  ' + rng.choice(['* ', '*', '']) + gen_inline(rng, W))
+            if rng.random() < 0.2:
+                gen_blocks(rng, W, ind + 2, depth + 2, out, False, 1)
+    elif r < 0.76:
+        out.append(sp + 'TABLE' + gen_attrs(rng, W, 0.1))
+        for _ in range(rng.randint(1, 2)):
+            out.append(sp + '  TR')
+            for _ in range(rng.randint(1, 3)):
+                out.append(sp + '    ' + rng.choice(['TH', 'TC']) + rng.choice(['', '', '{colspan 2}', '{rowspan 2|colspan 1}']))
+                if rng.random() < 0.8:
+                    gen_blocks(rng, W, ind + 3, depth + 3, out, False, rng.randint(1, 2))
+    elif r < 0.80:
+        out.append(sp + 'BLOCKS' + gen_attrs(rng, W, 0.1))
+        gen_blocks(rng, W, ind + 1, depth + 1, out, False, rng.randint(1, 2))
+    elif r < 0.84:
+        out.append(sp + 'QUOTE' + gen_attrs(rng, W, 0.1))
+        gen_blocks(rng, W, ind + 1, depth + 1, out, True, rng.randint(1, 2))
+    elif r < 0.89:
+        out.append(sp + 'P' + gen_attrs(rng, W, 0.4) + ' ' + gen_inline(rng, W))
+    elif r < 0.92:
+        out.append(sp + 'LONGTITLE' + rng.choice(['', ' ' + gen_inline(rng, W)]))
+    elif r < 0.96:
+        out.append(sp + 'FOOTNOTE ' + rng.choice(['1', '2', '*', 'a']))
+        gen_blocks(rng, W, ind + 1, depth + 1, out, rng.random() < 0.3, rng.randint(1, 2))
+    else:
+        # over-indented nested block
+        gen_blocks(rng, W, ind + 1, depth + 1, out, allow_hier, rng.randint(1, 2))
+
+def gen_speech(rng, W, ind, depth, out):
+    sp = '  ' * ind
+    r = rng.random()
+    if r < 0.35 and depth < 4:
+        out.append(sp + rng.choice(SPEECH_CONTAINERS) + gen_attrs(rng, W, 0.1) + gen_heading(rng, W))
+        if rng.random() < 0.2:
+            out.append(sp + '  SUBHEADING ' + gen_inline(rng, W))
+        for _ in range(rng.randint(1, 3)):
+            gen_speech(rng, W, ind + 1, depth + 1, out)
+    elif r < 0.6 and depth < 4:
+        out.append(sp + rng.choice(SPEECH_GROUPS) + gen_attrs(rng, W, 0.1) + gen_heading(rng, W))
+        out.append(sp + '  FROM ' + gen_inline(rng, W))
+        for _ in range(rng.randint(1, 3)):
+            gen_speech(rng, W, ind + 1, depth + 1, out)
+    elif r < 0.7:
+        out.append(sp + rng.choice(SPEECH_BLOCKS) + gen_attrs(rng, W, 0.1) + ' ' + gen_inline(rng, W))
+    else:
+        gen_block(rng, W, ind, depth + 2, out, False)
+
+def gen_attachment(rng, W, ind, depth, out, root):
+    sp = '  ' * ind
+    out.append(sp + rng.choice(ATTACH) + gen_attrs(rng, W, 0.1) + rng.choice(['', ' ' + gen_inline(rng, W)]))
+    if rng.random() < 0.3:
+        out.append(sp + '  SUBHEADING ' + gen_inline(rng, W))
+    gen_blocks(rng, W, ind + 1, depth + 1, out, True, rng.randint(0, 3))
+    if depth < 2 and rng.random() < 0.3:
+        for _ in range(rng.randint(1, 2)):
+            gen_attachment(rng, W, ind + 1, depth + 1, out, root)
+
+def gen_doc(rng, root, unique=False, size=None):
+    """A mostly-valid document for the given root type."""
+    W = Words(rng, unique)
+    out = []
+    if root == 'judgment':
+        for part in JUDGMENT_PARTS:
+            if rng.random() < 0.5:
+                out.append(part)
+                gen_blocks(rng, W, 1 if rng.random() < 0.8 else 0, 1, out, True, rng.randint(0, 3))
+    else:
+        if rng.random() < 0.3:
+            out.append('PREFACE' + gen_attrs(rng, W, 0.1))
+            gen_blocks(rng, W, rng.choice([0, 1]), 1, out, False, rng.randint(0, 3))
+        if rng.random() < 0.3 and root != 'debate':
+            out.append('PREAMBLE' + gen_attrs(rng, W, 0.1))
+            gen_blocks(rng, W, rng.choice([0, 1]), 1, out, False, rng.randint(0, 3))
+        if rng.random() < 0.5:
+            out.append('BODY')
+        if root == 'debate' or (root == 'debateReport' and rng.random() < 0.0):
+            for _ in range(rng.randint(0, 3)):
+                gen_speech(rng, W, rng.choice([0, 0, 1]), 0, out)
+        else:
+            gen_blocks(rng, W, rng.choice([0, 0, 1]), 0, out, True, size or rng.randint(0, 5))
+    if rng.random() < 0.25:
+        out.append('CONCLUSIONS')
+        gen_blocks(rng, W, rng.choice([0, 1]), 1, out, False, rng.randint(0, 2))
+    if rng.random() < 0.3:
+        for _ in range(rng.randint(1, 3)):
+            gen_attachment(rng, W, 0, 0, out, root)
+    return '\n'.join(out) + '\n'
+
+def mutate(rng, text, n=None):
+    lines = text.split('\n')
+    for _ in range(n or rng.randint(1, 3)):
+        if not lines:
+            lines = ['']
+        i = rng.randrange(len(lines))
+        op = rng.randrange(12)
+        if op == 0: del lines[i]
+        elif op == 1: lines.insert(i, lines[i])
+        elif op == 2 and len(lines) > 1:
+            j = rng.randrange(len(lines)); lines[i], lines[j] = lines[j], lines[i]
+        elif op == 3: lines[i] = ' ' * rng.randint(0, 7) + lines[i].lstrip(' ')
+        elif op == 4: lines[i] = '\t' * rng.randint(1, 2) + lines[i]
+        elif op == 5:
+            # append a character to / truncate a keyword
+            for kw in ALL_KEYWORDS:
+                if lines[i].lstrip().startswith(kw):
+                    k = lines[i].index(kw) + len(kw)
+                    lines[i] = lines[i][:k] + rng.choice(['S', 'x', '.', '{', '-', ' ', '']) + lines[i][k:] if rng.random() < 0.6 \
+                        else lines[i][:k - 1] + lines[i][k:]
+                    break
+        elif op == 6:
+            k = rng.randint(0, len(lines[i]))
+            lines[i] = lines[i][:k] + rng.choice(INLINE_OPEN) + lines[i][k:]
+        elif op == 7:
+            k = rng.randint(0, len(lines[i]))
+            lines[i] = lines[i][:k] + rng.choice(['\\', '|', '{', '}', '.', '*', '  ', '‏', '́', '\U0001F600', 'é']) + lines[i][k:]
+        elif op == 8: lines.insert(i, '')
+        elif op == 9: lines.insert(i, ' ' * rng.randint(0, 6) + rng.choice(ALL_KEYWORDS) + rng.choice(['', ' 1', ' - h', ' x']))
+        elif op == 10: lines[i] = lines[i] + rng.choice([' ', '  ', '\t'])
+        else:
+            k = rng.randint(0, len(lines[i]))
+            lines[i] = lines[i][:k]
+    return '\n'.join(lines)
+
+def soup(rng, unique=False):
+    """Token soup in the style of tests/test_fuzzing.py, over all keywords and inline tokens."""
+    W = Words(rng, unique)
+    toks = []
+    for _ in range(rng.randint(1, 40)):
+        r = rng.random()
+        if r < 0.35: toks.append(rng.choice(ALL_KEYWORDS))
+        elif r < 0.5: toks.append(rng.choice(INLINE_OPEN))
+        else: toks.append(W.word())
+        toks.append(rng.choice(['\n  ', '\n    ', '\n', ' ', ' ', '\n      ', '']))
+    return ''.join(toks)
+
+def any_text(rng, root, unique=False):
+    r = rng.random()
+    if r < 0.55: return gen_doc(rng, root, unique)
+    if r < 0.85: return mutate(rng, gen_doc(rng, root, unique))
+    return soup(rng, unique)
